@@ -459,12 +459,6 @@ Lemma kind_width_cases k w : kind_width k = Some w ->
   (k = KInt16 /\ w = 2) \/ (k = KInt32 /\ w = 4) \/ (k = KInt64 /\ w = 8).
 Proof. destruct k; cbn; intros E; inversion E; auto. Qed.
 
-Definition p0_of (hdr : list Z) (hl pl : Z) : packet :=
-  {| version := znth 0 hdr 0; headerLength := hl; payloadLength := pl;
-     sourceID := be hdr 8 4; sequenceNumber := be hdr 12 4; packetLength := hl + pl;
-     format := None; shape := None; timestamp := None; payloadLabel := [];
-     offset := 0; explicitOffset := false; pdat := DNil |}.
-
 (* everything the property says about the decoder, on the model *)
 Definition decode_facts (bs : list Z) (r : dres) (n : Z) : Prop :=
   0 <= n <= zlen bs /\ n <= Z.max 16 (declared bs) /\
@@ -483,7 +477,7 @@ Proof. intros. unfold decode_facts. split; [assumption|]. split; [lia|]. auto. Q
 
 Lemma read_packet_facts bs : bytes_ok bs -> decode_facts bs (fst (read_packet bs)) (snd (read_packet bs)).
 Proof.
-  intros Hb. unfold read_packet, read_packet_gen, decode_facts.
+  intros Hb. unfold read_packet, read_packet_gen, read_payload, decode_facts.
   pose proof (zlen_nonneg bs) as Hn0.
   destruct (zlen bs <? 16) eqn:L16.
   { cbn [fst snd]. repeat split; lia. }
@@ -505,7 +499,6 @@ Proof.
   assert (Htl : zlen tlvdata = hl - 16) by (apply zlen_zfirstn; lia).
   assert (Htb : bytes_ok tlvdata) by (apply bytes_ok_zfirstn, bytes_ok_zskipn, Hb).
   pose proof (parse_tlv_spec (length tlvdata) tlvdata Htb ltac:(unfold zlen; lia)) as PS.
-  fold (p0_of hdr hl pl).
   destruct (parse_tlv true (length tlvdata) tlvdata) as [items| | |];
     [|cbn [fst snd]; repeat split; lia|contradiction|contradiction].
   assert (PI : pinv 239 hl pl (fold_left apply_tlv items (p0_of hdr hl pl))).
